@@ -50,6 +50,12 @@ def mapErr (e : String) (m : M α) : M α := fun h =>
 def failIf (c : Bool) (e : String) : M Unit := if c then fail e else pure ()
 def panicIf (c : Bool) (w : String) : M Unit := if c then goPanic w else pure ()
 
+/-- the slices are handed to code that, by contract, only reads them (`h.Write(x)`,
+`rsa.VerifyPKCS1v15(…, digest, sig)`, `jwk.ParseKey(raw)` …) -/
+def touch (xs : List Slice) : M Unit := loop xs fun x => do
+  let _ ← readS x
+  pure ()
+
 /-! ## crypto/padding -/
 
 /-- `padding.PadPKCS7(buf, size)` -/
@@ -211,10 +217,10 @@ def newAESCBCAEAD (p : AEADParams) (key : Slice) : M CbcAead := do
   pure ⟨p, encKey, macKey⟩
 
 /-- `aead.hmacTag(hmac.New(…), additionalData, nonce, ciphertext, l)` -/
-def hmacTag (env : Env) (a : CbcAead) (additionalData : Slice) : M Slice := do
+def hmacTag (env : Env) (a : CbcAead) (additionalData nonce ciphertext : Slice) : M Slice := do
   let al ← make 8
   writeAt al 0 (be64 (additionalData.len * 8))
-  -- h.Write(additionalData); h.Write(nonce); h.Write(ciphertext); h.Write(al): reads
+  touch [additionalData, nonce, ciphertext, al]   -- h.Write(…) four times: reads
   let sum ← hashSum env a.p.hashSize
   reslice sum 0 a.p.tagSize
 
@@ -238,17 +244,18 @@ def cbcSeal (v : Version) (env : Env) (a : CbcAead) (dst nonce plaintext additio
   let out ← resliceFrom dst dstLen
   let body ← reslice out 0 (out.len - a.p.tagSize)
   cryptBlocks env body plaintext
-  let tag ← hmacTag env a additionalData
+  let tag ← hmacTag env a additionalData nonce body
   let tl ← resliceFrom out (out.len - a.p.tagSize)
   let _ ← copyS tl tag
   pure dst
 
 /-- `(*aesCBCAEAD).Open(dst, nonce, ciphertext, additionalData)` -/
 def cbcOpen (env : Env) (a : CbcAead) (dst nonce ciphertext additionalData : Slice) : M Slice := do
+  failIf (nonce.len != 16) eOther              -- "invalid nonce size" (/repo c71e752)
   failIf (decide (ciphertext.len < a.p.tagSize)) eOther
   let _ciphertextTag ← resliceFrom ciphertext (ciphertext.len - a.p.tagSize)
   let ciphertext ← reslice ciphertext 0 (ciphertext.len - a.p.tagSize)
-  let _expectTag ← hmacTag env a additionalData
+  let _expectTag ← hmacTag env a additionalData nonce ciphertext
   failIf (!env.authOk) eOther                  -- !hmac.Equal(ciphertextTag, expectTag)
   failIf (ciphertext.len % 16 != 0) eOther     -- an authenticated body must be whole AES blocks
   let size := ciphertext.len
@@ -503,14 +510,16 @@ def asymPrim (env : Env) (outLen : Nat) : M Slice :=
   if env.primOk then freshResult env outLen else fail eOther
 
 /-- `encryptPublicKeyRSAPKCS1v15(plaintext, key)`: `key.Raw(&rsa.PublicKey{})`, `rsa.EncryptPKCS1v15` -/
-def encryptPublicKeyRSAPKCS1v15 (env : Env) (outLen : Nat) (_plaintext : Slice) (key : Key) : M Slice := do
+def encryptPublicKeyRSAPKCS1v15 (env : Env) (outLen : Nat) (plaintext : Slice) (key : Key) : M Slice := do
   failIf (!key.kind.isRSA) eKeyTypeMismatch
+  touch [plaintext]                                 -- rsa.EncryptPKCS1v15(rand, key, plaintext)
   asymPrim env outLen
 
 /-- `encryptPublicKeyRSAOAEP(plaintext, key, hash, label)` -/
-def encryptPublicKeyRSAOAEP (env : Env) (outLen : Nat) (_plaintext : Slice) (key : Key) (_label : Slice) :
+def encryptPublicKeyRSAOAEP (env : Env) (outLen : Nat) (plaintext : Slice) (key : Key) (label : Slice) :
     M Slice := do
   failIf (!key.kind.isRSA) eKeyTypeMismatch
+  touch [plaintext, label]                          -- rsa.EncryptOAEP(h, rand, key, plaintext, label)
   asymPrim env outLen
 
 /-- `crypto.EncryptPublicKey(plaintext, algorithm, key, associatedData)` -/
@@ -523,14 +532,16 @@ def encryptPublicKey (env : Env) (outLen : Nat) (plaintext : Slice) (alg : Strin
   else fail eUnsupportedAlgorithm
 
 /-- `decryptPrivateKeyRSAPKCS1v15(ciphertext, key)`: `key.Raw(&rsa.PrivateKey{})`, `rsa.DecryptPKCS1v15` -/
-def decryptPrivateKeyRSAPKCS1v15 (env : Env) (outLen : Nat) (_ciphertext : Slice) (key : Key) : M Slice := do
+def decryptPrivateKeyRSAPKCS1v15 (env : Env) (outLen : Nat) (ciphertext : Slice) (key : Key) : M Slice := do
   failIf (key.kind != .rsaPriv) eKeyTypeMismatch
+  touch [ciphertext]                                -- rsa.DecryptPKCS1v15(rand, key, ciphertext)
   asymPrim env outLen
 
 /-- `decryptPrivateKeyRSAOAEP(ciphertext, key, hash, label)` -/
-def decryptPrivateKeyRSAOAEP (env : Env) (outLen : Nat) (_ciphertext : Slice) (key : Key) (_label : Slice) :
+def decryptPrivateKeyRSAOAEP (env : Env) (outLen : Nat) (ciphertext : Slice) (key : Key) (label : Slice) :
     M Slice := do
   failIf (key.kind != .rsaPriv) eKeyTypeMismatch
+  touch [ciphertext, label]                         -- rsa.DecryptOAEP(h, rand, key, ciphertext, label)
   asymPrim env outLen
 
 /-- `crypto.DecryptPrivateKey(ciphertext, algorithm, key, associatedData)` -/
@@ -541,20 +552,24 @@ def decryptPrivateKey (env : Env) (outLen : Nat) (ciphertext : Slice) (alg : Str
   else if algsRSAOAEPSHA2.contains alg then decryptPrivateKeyRSAOAEP env outLen ciphertext key ad
   else fail eUnsupportedAlgorithm
 
-def signPrivateKeyRSAPKCS1v15 (env : Env) (outLen : Nat) (_digest : Slice) (key : Key) : M Slice := do
+def signPrivateKeyRSAPKCS1v15 (env : Env) (outLen : Nat) (digest : Slice) (key : Key) : M Slice := do
   failIf (key.kind != .rsaPriv) eKeyTypeMismatch
+  touch [digest]
   asymPrim env outLen
 
-def signPrivateKeyRSAPSS (env : Env) (outLen : Nat) (_digest : Slice) (key : Key) : M Slice := do
+def signPrivateKeyRSAPSS (env : Env) (outLen : Nat) (digest : Slice) (key : Key) : M Slice := do
   failIf (key.kind != .rsaPriv) eKeyTypeMismatch
+  touch [digest]
   asymPrim env outLen
 
-def signPrivateKeyECDSA (env : Env) (outLen : Nat) (_digest : Slice) (key : Key) : M Slice := do
+def signPrivateKeyECDSA (env : Env) (outLen : Nat) (digest : Slice) (key : Key) : M Slice := do
   failIf (key.kind != .ecPriv) eKeyTypeMismatch
+  touch [digest]
   asymPrim env outLen
 
-def signPrivateKeyEdDSA (env : Env) (outLen : Nat) (_message : Slice) (key : Key) : M Slice := do
+def signPrivateKeyEdDSA (env : Env) (outLen : Nat) (message : Slice) (key : Key) : M Slice := do
   failIf (key.kind != .edPriv) eKeyTypeMismatch
+  touch [message]
   freshResult env outLen                            -- ed25519.Sign never fails
 
 /-- `crypto.SignPrivateKey(digest, algorithm, key)` -/
@@ -565,20 +580,24 @@ def signPrivateKey (env : Env) (outLen : Nat) (digest : Slice) (alg : String) (k
   else if alg = "EdDSA" then signPrivateKeyEdDSA env outLen digest key
   else fail eUnsupportedAlgorithm
 
-def verifyPublicKeyRSAPKCS1v15 (env : Env) (_digest _signature : Slice) (key : Key) : M Bool := do
+def verifyPublicKeyRSAPKCS1v15 (env : Env) (digest signature : Slice) (key : Key) : M Bool := do
   failIf (!key.kind.isRSA) eKeyTypeMismatch
+  touch [digest, signature]
   pure env.sigOk
 
-def verifyPublicKeyRSAPSS (env : Env) (_digest _signature : Slice) (key : Key) : M Bool := do
+def verifyPublicKeyRSAPSS (env : Env) (digest signature : Slice) (key : Key) : M Bool := do
   failIf (!key.kind.isRSA) eKeyTypeMismatch
+  touch [digest, signature]
   pure env.sigOk
 
-def verifyPublicKeyECDSA (env : Env) (_digest _signature : Slice) (key : Key) : M Bool := do
+def verifyPublicKeyECDSA (env : Env) (digest signature : Slice) (key : Key) : M Bool := do
   failIf (!(key.kind == .ecPriv || key.kind == .ecPub)) eKeyTypeMismatch
+  touch [digest, signature]
   pure env.sigOk
 
-def verifyPublicKeyEdDSA (env : Env) (_mesage _signature : Slice) (key : Key) : M Bool := do
+def verifyPublicKeyEdDSA (env : Env) (mesage signature : Slice) (key : Key) : M Bool := do
   failIf (!(key.kind == .edPriv || key.kind == .edPub)) eKeyTypeMismatch
+  touch [mesage, signature]
   pure env.sigOk
 
 /-- `crypto.VerifyPublicKey(digest, signature, algorithm, key)` -/
@@ -616,6 +635,7 @@ def decrypt (v : Version) (env : Env) (outLen : Nat) (ciphertext : Slice) (alg :
 /-- `crypto.ParseKey(raw, contentType)`: jwx parsers read `raw`; the symmetric-key fallback
 base64-decodes into a new buffer (and `jwk.FromRaw(raw)` keeps `raw` itself) -/
 def parseSymmetricKey (env : Env) (raw : Slice) : M Unit := do
+  touch [raw]
   -- trimmedRaw := bytes.TrimRight(raw, "\n=") is a sub-slice (no write)
   let dst ← make (raw.len * 6 / 8)
   writeAt dst 0 (env.bytes dst.len)              -- base64.RawStdEncoding.Decode(dst, trimmedRaw)
@@ -624,6 +644,7 @@ def parseSymmetricKey (env : Env) (raw : Slice) : M Unit := do
 
 def parseKey (env : Env) (raw : Slice) (_contentType : String) : M Unit := do
   failIf (raw.len == 0) eOther
+  touch [raw]
   -- jwk.ParseKey(raw[, WithPEM]) for JSON / PEM input only reads; otherwise:
   parseSymmetricKey env raw
 
@@ -754,5 +775,174 @@ def sameTables : List (String × List (List String)) → List (String × List (L
   | [], [] => true
   | (f, cs) :: as, (g, ds) :: bs => f == g && sameClauses cs ds && sameTables as bs
   | _, _ => false
+
+/-! ## the registry: one entry per Go function that receives caller slices
+
+`params` are the `[]byte` parameters in source order — exactly what `factgen_c17` extracts; `run`
+is the model of the call with its slice arguments taken BY THOSE NAMES (`key.octets` = the octets of
+a symmetric `jwk.Key`, `recv.encKey`/`recv.macKey` = the receiver's sub-slices of the caller's key);
+`writeSites` are the sites of the Go body (as `factgen_c17` reports them) through which the model
+writes caller memory — only an explicit `dst`. The T1 obligation of a generated signature is
+computed from the signature (`frameStmt` in `KitProofs/Props/C17.lean`), not stated per entry. -/
+
+/-- the non-slice parameters / context of a call -/
+structure NonSlice where
+  alg : String
+  size : Int
+  ctype : String
+  kind : KeyKind
+  outLen : Nat
+  cbc : AEADParams
+  aead : Aead
+
+structure ModelEntry where
+  pkg : String
+  recv : String
+  name : String
+  params : List String
+  writeSites : List (String × String × String)
+  run : Env → NonSlice → (String → Slice) → M Unit
+
+def discard (m : M α) : M Unit := do
+  let _ ← m
+  pure ()
+
+def recvAead (ns : NonSlice) (a : String → Slice) : CbcAead := ⟨ns.cbc, a "recv.encKey", a "recv.macKey"⟩
+def jwkOf (ns : NonSlice) (a : String → Slice) : Key := ⟨ns.kind, a "key.octets"⟩
+
+def models : List ModelEntry := [
+  ⟨"aescbcaead", "", "NewAESCBC128SHA256", ["key"], [],
+    fun _ _ a => discard (newAESCBCAEAD paramsAESCBC128SHA256 (a "key"))⟩,
+  ⟨"aescbcaead", "", "NewAESCBC192SHA384", ["key"], [],
+    fun _ _ a => discard (newAESCBCAEAD paramsAESCBC192SHA384 (a "key"))⟩,
+  ⟨"aescbcaead", "", "NewAESCBC256SHA384", ["key"], [],
+    fun _ _ a => discard (newAESCBCAEAD paramsAESCBC256SHA384 (a "key"))⟩,
+  ⟨"aescbcaead", "", "NewAESCBC256SHA512", ["key"], [],
+    fun _ _ a => discard (newAESCBCAEAD paramsAESCBC256SHA512 (a "key"))⟩,
+  ⟨"aescbcaead", "", "NewAESCBCAEAD", ["p.key"], [],
+    fun _ ns a => discard (newAESCBCAEAD ns.cbc (a "p.key"))⟩,
+  ⟨"aescbcaead", "aesCBCAEAD", "Open", ["dst", "nonce", "ciphertext", "additionalData"],
+    [("pass", ".CryptBlocks#0", "dst"), ("reslice", "dst[:dstLen+len(out)]", "dst"),
+     ("reslice", "dst[:dstLen+size]", "dst")],
+    fun env ns a => discard (cbcOpen env (recvAead ns a) (a "dst") (a "nonce") (a "ciphertext") (a "additionalData"))⟩,
+  ⟨"aescbcaead", "aesCBCAEAD", "Seal", ["dst", "nonce", "plaintext", "additionalData"],
+    [("pass", ".CryptBlocks#0", "dst"), ("pass", "copy#0", "dst"), ("reslice", "dst[:dstLen+size]", "dst"),
+     ("reslice", "out[:len(out)-aead.tagSize]", "dst")],
+    fun env ns a => discard (cbcSeal .fixed env (recvAead ns a) (a "dst") (a "nonce") (a "plaintext") (a "additionalData"))⟩,
+  ⟨"aescbcaead", "aesCBCAEAD", "hmacTag", ["additionalData", "nonce", "ciphertext"], [],
+    fun env ns a => discard (hmacTag env (recvAead ns a) (a "additionalData") (a "nonce") (a "ciphertext"))⟩,
+  ⟨"aeskw", "", "Unwrap", ["cipherText"], [], fun env _ a => discard (unwrap env (a "cipherText"))⟩,
+  ⟨"aeskw", "", "Wrap", ["cek"], [], fun env _ a => discard (wrap env (a "cek"))⟩,
+  ⟨"aeskw", "", "arrConcat", ["arrays..."], [],
+    fun _ _ a => discard (arrConcat [a "arrays.0", a "arrays.1", a "arrays.2"])⟩,
+  ⟨"aeskw", "", "arrXor", ["arrL", "arrR"], [], fun _ _ a => discard (arrXor (a "arrL") (a "arrR"))⟩,
+  ⟨"crypto", "", "Decrypt", ["ciphertext", "nonce", "tag", "associatedData"], [],
+    fun env ns a => discard (decrypt .fixed env ns.outLen (a "ciphertext") ns.alg (jwkOf ns a) (a "nonce") (a "tag") (a "associatedData"))⟩,
+  ⟨"crypto", "", "DecryptPrivateKey", ["ciphertext", "associatedData"], [],
+    fun env ns a => discard (decryptPrivateKey env ns.outLen (a "ciphertext") ns.alg (jwkOf ns a) (a "associatedData"))⟩,
+  ⟨"crypto", "", "DecryptSymmetric", ["ciphertext", "nonce", "tag", "associatedData"], [],
+    fun env ns a => discard (decryptSymmetric .fixed env (a "ciphertext") ns.alg (jwkOf ns a) (a "nonce") (a "tag") (a "associatedData"))⟩,
+  ⟨"crypto", "", "Encrypt", ["plaintext", "nonce", "associatedData"], [],
+    fun env ns a => discard (encrypt .fixed env ns.outLen (a "plaintext") ns.alg (jwkOf ns a) (a "nonce") (a "associatedData"))⟩,
+  ⟨"crypto", "", "EncryptPublicKey", ["plaintext", "associatedData"], [],
+    fun env ns a => discard (encryptPublicKey env ns.outLen (a "plaintext") ns.alg (jwkOf ns a) (a "associatedData"))⟩,
+  ⟨"crypto", "", "EncryptSymmetric", ["plaintext", "nonce", "associatedData"], [],
+    fun env ns a => discard (encryptSymmetric .fixed env (a "plaintext") ns.alg (jwkOf ns a) (a "nonce") (a "associatedData"))⟩,
+  ⟨"crypto", "", "ParseKey", ["raw"], [], fun env ns a => parseKey env (a "raw") ns.ctype⟩,
+  ⟨"crypto", "", "SignPrivateKey", ["digest"], [],
+    fun env ns a => discard (signPrivateKey env ns.outLen (a "digest") ns.alg (jwkOf ns a))⟩,
+  ⟨"crypto", "", "VerifyPublicKey", ["digest", "signature"], [],
+    fun env ns a => discard (verifyPublicKey env (a "digest") (a "signature") ns.alg (jwkOf ns a))⟩,
+  ⟨"crypto", "", "decryptPrivateKeyRSAOAEP", ["ciphertext", "label"], [],
+    fun env ns a => discard (decryptPrivateKeyRSAOAEP env ns.outLen (a "ciphertext") (jwkOf ns a) (a "label"))⟩,
+  ⟨"crypto", "", "decryptPrivateKeyRSAPKCS1v15", ["ciphertext"], [],
+    fun env ns a => discard (decryptPrivateKeyRSAPKCS1v15 env ns.outLen (a "ciphertext") (jwkOf ns a))⟩,
+  ⟨"crypto", "", "decryptSymmetricAEAD", ["ciphertext", "nonce", "tag", "associatedData"], [],
+    fun env ns a => discard (decryptSymmetricAEAD .fixed env ns.aead (a "ciphertext") (a "nonce") (a "tag") (a "associatedData"))⟩,
+  ⟨"crypto", "", "decryptSymmetricAESCBC", ["ciphertext", "key", "iv"], [],
+    fun env ns a => discard (decryptSymmetricAESCBC env (a "ciphertext") ns.alg (a "key") (a "iv"))⟩,
+  ⟨"crypto", "", "decryptSymmetricAESCBCHMAC", ["ciphertext", "key", "nonce", "tag", "associatedData"], [],
+    fun env ns a => discard (decryptSymmetricAESCBCHMAC .fixed env (a "ciphertext") ns.alg (a "key") (a "nonce") (a "tag") (a "associatedData"))⟩,
+  ⟨"crypto", "", "decryptSymmetricAESGCM", ["ciphertext", "key", "nonce", "tag", "associatedData"], [],
+    fun env ns a => discard (decryptSymmetricAESGCM .fixed env (a "ciphertext") ns.alg (a "key") (a "nonce") (a "tag") (a "associatedData"))⟩,
+  ⟨"crypto", "", "decryptSymmetricAESKW", ["ciphertext", "key"], [],
+    fun env ns a => discard (decryptSymmetricAESKW env (a "ciphertext") ns.alg (a "key"))⟩,
+  ⟨"crypto", "", "decryptSymmetricChaCha20Poly1305", ["ciphertext", "key", "nonce", "tag", "associatedData"], [],
+    fun env ns a => discard (decryptSymmetricChaCha20Poly1305 .fixed env (a "ciphertext") ns.alg (a "key") (a "nonce") (a "tag") (a "associatedData"))⟩,
+  ⟨"crypto", "", "encryptPublicKeyRSAOAEP", ["plaintext", "label"], [],
+    fun env ns a => discard (encryptPublicKeyRSAOAEP env ns.outLen (a "plaintext") (jwkOf ns a) (a "label"))⟩,
+  ⟨"crypto", "", "encryptPublicKeyRSAPKCS1v15", ["plaintext"], [],
+    fun env ns a => discard (encryptPublicKeyRSAPKCS1v15 env ns.outLen (a "plaintext") (jwkOf ns a))⟩,
+  ⟨"crypto", "", "encryptSymmetricAEAD", ["plaintext", "nonce", "associatedData"], [],
+    fun env ns a => discard (encryptSymmetricAEAD .fixed env ns.aead (a "plaintext") (a "nonce") (a "associatedData"))⟩,
+  ⟨"crypto", "", "encryptSymmetricAESCBC", ["plaintext", "key", "iv"], [],
+    fun env ns a => discard (encryptSymmetricAESCBC .fixed env (a "plaintext") ns.alg (a "key") (a "iv"))⟩,
+  ⟨"crypto", "", "encryptSymmetricAESCBCHMAC", ["plaintext", "key", "nonce", "associatedData"], [],
+    fun env ns a => discard (encryptSymmetricAESCBCHMAC .fixed env (a "plaintext") ns.alg (a "key") (a "nonce") (a "associatedData"))⟩,
+  ⟨"crypto", "", "encryptSymmetricAESGCM", ["plaintext", "key", "nonce", "associatedData"], [],
+    fun env ns a => discard (encryptSymmetricAESGCM .fixed env (a "plaintext") ns.alg (a "key") (a "nonce") (a "associatedData"))⟩,
+  ⟨"crypto", "", "encryptSymmetricAESKW", ["plaintext", "key"], [],
+    fun env ns a => discard (encryptSymmetricAESKW env (a "plaintext") ns.alg (a "key"))⟩,
+  ⟨"crypto", "", "encryptSymmetricChaCha20Poly1305", ["plaintext", "key", "nonce", "associatedData"], [],
+    fun env ns a => discard (encryptSymmetricChaCha20Poly1305 .fixed env (a "plaintext") ns.alg (a "key") (a "nonce") (a "associatedData"))⟩,
+  ⟨"crypto", "", "getAESCBCHMACCipher", ["key"], [], fun _ ns a => discard (getAESCBCHMACCipher ns.alg (a "key"))⟩,
+  ⟨"crypto", "", "getChaCha20Poly1305Cipher", ["key", "nonce"], [],
+    fun _ ns a => discard (getChaCha20Poly1305Cipher ns.alg (a "key") (a "nonce"))⟩,
+  ⟨"crypto", "", "parseSymmetricKey", ["raw"], [], fun env _ a => parseSymmetricKey env (a "raw")⟩,
+  ⟨"crypto", "", "signPrivateKeyECDSA", ["digest"], [],
+    fun env ns a => discard (signPrivateKeyECDSA env ns.outLen (a "digest") (jwkOf ns a))⟩,
+  ⟨"crypto", "", "signPrivateKeyEdDSA", ["message"], [],
+    fun env ns a => discard (signPrivateKeyEdDSA env ns.outLen (a "message") (jwkOf ns a))⟩,
+  ⟨"crypto", "", "signPrivateKeyRSAPKCS1v15", ["digest"], [],
+    fun env ns a => discard (signPrivateKeyRSAPKCS1v15 env ns.outLen (a "digest") (jwkOf ns a))⟩,
+  ⟨"crypto", "", "signPrivateKeyRSAPSS", ["digest"], [],
+    fun env ns a => discard (signPrivateKeyRSAPSS env ns.outLen (a "digest") (jwkOf ns a))⟩,
+  ⟨"crypto", "", "verifyPublicKeyECDSA", ["digest", "signature"], [],
+    fun env ns a => discard (verifyPublicKeyECDSA env (a "digest") (a "signature") (jwkOf ns a))⟩,
+  ⟨"crypto", "", "verifyPublicKeyEdDSA", ["mesage", "signature"], [],
+    fun env ns a => discard (verifyPublicKeyEdDSA env (a "mesage") (a "signature") (jwkOf ns a))⟩,
+  ⟨"crypto", "", "verifyPublicKeyRSAPKCS1v15", ["digest", "signature"], [],
+    fun env ns a => discard (verifyPublicKeyRSAPKCS1v15 env (a "digest") (a "signature") (jwkOf ns a))⟩,
+  ⟨"crypto", "", "verifyPublicKeyRSAPSS", ["digest", "signature"], [],
+    fun env ns a => discard (verifyPublicKeyRSAPSS env (a "digest") (a "signature") (jwkOf ns a))⟩,
+  ⟨"padding", "", "PadPKCS7", ["buf"], [], fun _ ns a => discard (padPKCS7 .fixed (a "buf") ns.size)⟩,
+  ⟨"padding", "", "UnpadPKCS7", ["buf"], [], fun _ ns a => discard (unpadPKCS7 (a "buf") ns.size)⟩]
+
+/-- CONTRACT (trusted, exercised by the canary monitor): passing caller memory at these argument
+positions of these callees only READS it; re-slicing with these bounds stays within the length
+(guarded just before in the source); these struct fields keep a sub-slice for later reads.
+Anything not listed — `copy#0`, `append#0`, `.Seal#0`, `.Open#0`, `.CryptBlocks#0`, `.Sum#0`,
+`slices.Insert#0`, `slices.Grow#0`, an index assignment … — counts as a write and must be a
+declared `writeSites` entry of the function's model (which may name `dst` only). -/
+def readOnlyContract : List (String × String) := [
+  ("pass", ".CryptBlocks#1"), ("pass", ".Decode#1"), ("pass", ".Open#1"), ("pass", ".Open#2"),
+  ("pass", ".Open#3"), ("pass", ".Seal#1"), ("pass", ".Seal#2"), ("pass", ".Seal#3"),
+  ("pass", ".Write#0"), ("pass", "aes.NewCipher#0"), ("pass", "append#1"),
+  ("pass", "bytes.TrimRight#0"), ("pass", "chacha20poly1305.New#0"), ("pass", "chacha20poly1305.NewX#0"),
+  ("pass", "cipher.NewCBCDecrypter#1"), ("pass", "cipher.NewCBCEncrypter#1"), ("pass", "copy#1"),
+  ("pass", "ecdsa.SignASN1#2"), ("pass", "ecdsa.VerifyASN1#1"), ("pass", "ecdsa.VerifyASN1#2"),
+  ("pass", "ed25519.Sign#1"), ("pass", "ed25519.Verify#1"), ("pass", "ed25519.Verify#2"),
+  ("pass", "hmac.Equal#0"), ("pass", "hmac.Equal#1"), ("pass", "hmac.New#1"),
+  ("pass", "jwk.FromRaw#0"), ("pass", "jwk.ParseKey#0"), ("pass", "panic#0"),
+  ("pass", "rsa.DecryptOAEP#3"), ("pass", "rsa.DecryptOAEP#4"), ("pass", "rsa.DecryptPKCS1v15#2"),
+  ("pass", "rsa.EncryptOAEP#3"), ("pass", "rsa.EncryptOAEP#4"), ("pass", "rsa.EncryptPKCS1v15#2"),
+  ("pass", "rsa.SignPKCS1v15#3"), ("pass", "rsa.SignPSS#3"), ("pass", "rsa.VerifyPKCS1v15#2"),
+  ("pass", "rsa.VerifyPKCS1v15#3"), ("pass", "rsa.VerifyPSS#2"), ("pass", "rsa.VerifyPSS#3"),
+  ("pass", "subtle.ConstantTimeCompare#0"), ("pass", "subtle.ConstantTimeCompare#1"),
+  ("reslice", "buf[:l-padLen]"), ("reslice", "cipherText[:8]"),
+  ("reslice", "ciphertext[:len(ciphertext)-aead.tagSize]"), ("reslice", "p.key[0:p.macKeySize]"),
+  ("reslice", "raw[0:5]"),
+  ("retain", "encKey"), ("retain", "key"), ("retain", "macKey")]
+
+def siteAllowed (e : ModelEntry) (s : String × String × String) : Bool :=
+  s.1 == "internal" || readOnlyContract.contains (s.1, s.2.1) || e.writeSites.contains s
+
+/-- all sites of the Go body are read-only by contract or declared writes of the model; declared
+writes exist in the body and flow from the explicit `dst` only -/
+def sitesOK (key : String × String × String) (ss : List (String × String × String)) : Bool :=
+  match models.find? (fun e => e.pkg == key.1 && e.recv == key.2.1 && e.name == key.2.2) with
+  | none => false
+  | some e => ss.all (siteAllowed e) && e.writeSites.all (fun w => ss.contains w && w.2.2 == "dst")
+      && (e.writeSites.isEmpty || e.params.contains "dst")
 
 end Kit.CryptoFrame
